@@ -159,6 +159,10 @@ func cleanup(w *world) {
 	for _, tc := range w.terms {
 		tc.cancel()
 	}
+	for w.execAuthGate.release() {
+	}
+	for w.killAuthGate.release() {
+	}
 	synctest.Wait()
 }
 
@@ -200,6 +204,16 @@ func (w *world) doStep(op string, p *profile) {
 		w.advance(rapid.SampledFrom([]time.Duration{time.Nanosecond, time.Millisecond, time.Second, 2 * time.Second}).Draw(w.rt, "advance"))
 	case "tick":
 		w.stepTick()
+	case "parkSend":
+		w.stepParkSend()
+	case "releaseSend":
+		w.stepReleaseSend()
+	case "waitParked":
+		w.stepWaitParked()
+	case "killParked":
+		w.stepKillParked()
+	case "releaseAuth":
+		w.stepReleaseAuth()
 	case "fairPick":
 		// A worker that believes to be idle asks for work.
 		var cands []*workerSim
@@ -237,6 +251,7 @@ func (w *world) doStep(op string, p *profile) {
 // protocol was linear (C07).
 func (w *world) finalDrain() {
 	w.stepNo++
+	w.m.pre()
 	w.record("finalDrain", "cancel everything, advance past all timeouts")
 	for _, s := range w.streams {
 		s.cancelled = true
@@ -249,6 +264,20 @@ func (w *world) finalDrain() {
 	}
 	for _, tc := range w.terms {
 		tc.cancel()
+	}
+	for w.execAuthGate.release() {
+	}
+	if w.killAuthGate.waiting() > 0 {
+		for _, pk := range w.pendingKills {
+			w.mu.Lock()
+			r := pk.returned
+			w.mu.Unlock()
+			if !r {
+				w.m.onKill(pk.name, pk.status)
+			}
+		}
+		for w.killAuthGate.release() {
+		}
 	}
 	w.quiesce()
 	for _, s := range w.streams {
